@@ -54,6 +54,7 @@ class _Returned(Exception):
 def guard_result(F, fn, user_ids, n_user, before, after):
     """value returned by a leaf guard wrapper when the cancellation flag reads `before` ahead of the user code and `after` behind it"""
     st = {'seen': 0}
+    refs = {}
 
     def flag():
         if st['seen'] == 0:
@@ -70,6 +71,8 @@ def guard_result(F, fn, user_ids, n_user, before, after):
         if k == 'mem' and e['f'] == '_cancelled':
             return flag()
         if k == 'var':
+            if e['id'] in refs:
+                return ev(refs[e['id']], env, g, depth)       # a reference local: denotes its initialiser at the time of the read
             if e['id'] in env:
                 return env[e['id']]
             raise AnalysisBroken('guard wrapper %s uses %s outside the boolean fragment' % (fn.short, e.get('n')))
@@ -112,6 +115,9 @@ def guard_result(F, fn, user_ids, n_user, before, after):
                     for x in ir.walk(v['init']):
                         if id(x) in user_ids:
                             st['seen'] += 1
+                    if v.get('ref'):
+                        refs[v['id']] = v['init']
+                        continue
                     try:
                         env[v['id']] = ev(v['init'], env, g, depth)
                     except AnalysisBroken:
